@@ -365,21 +365,30 @@ def replay_outcome(prop, ctx, also=()):
 _REAL = {'undecided': 0, 'notes': []}      # bookkeeping of run_real_scenarios, merged into the Outcome by validate()
 
 
-def _real_once(sc, ctx, timeout):
-    """One real-process run; returns (trace, diag, event times).  harness/rtprog.py stamps every event it writes with the
-    wall clock in <trace dir>/times.txt (the trace itself carries no times)."""
+def _real_job(args):
+    sc, scratch, timeout = args
     from harness import rtreal
-    before = set(os.listdir(ctx.scratch))
-    tr, dg = rtreal.run_real(sc, ctx.scratch, call_timeout=timeout)
+    common.use_repo()
+    before = set(os.listdir(scratch))
+    tr, dg = rtreal.run_real(sc, scratch, call_timeout=timeout)
     times = []
-    for d in sorted(os.listdir(ctx.scratch)):
+    for d in sorted(os.listdir(scratch)):
         if d.startswith('rtreal') and d not in before:
             try:
-                with open(os.path.join(ctx.scratch, d, 'times.txt')) as f:
+                with open(os.path.join(scratch, d, 'times.txt')) as f:
                     times = [float(x) for x in f.read().split()]
             except (OSError, ValueError):
                 pass
     return tr, dg, times
+
+
+def _real_once(sc, ctx, timeout):
+    """One real-process run; returns (trace, diag, event times).  harness/rtprog.py stamps every event it writes with the
+    wall clock in <trace dir>/times.txt (the trace itself carries no times).
+    Each attempt runs in a process of its own: a client thread that is still blocked when the attempt ends (that is what a hang
+    looks like) dies with that process instead of writing its late events into the trace of the next attempt."""
+    with mp.get_context('fork').Pool(1, maxtasksperchild=1) as pool:
+        return pool.apply_async(_real_job, ((sc, ctx.scratch, timeout),)).get(timeout=timeout + 600)
 
 
 def _pending(tr, dg):
